@@ -47,6 +47,19 @@ def filters(thorough):
             fs += RL.compositions(nav[::9], plain[:2])
             fs += RL.compositions(lams[::11], paths[::13])
             fs += RL.compositions(lams[::13], lams[1::17])
+            # two to-one paths in one filter (incl. same-named relationships on different models), and a nested lambda
+            # followed / preceded by another collection lambda at the outer level
+            fs += RL.compositions(paths[::6], paths[3::7])
+            nested = [x for x in lams if x[0] in ("any-any", "all-any", "any-all", "all-any0", "any-notany0")]
+            simple = [x for x in lams if x[0] in ("any", "all", "any0")]
+            for (ka, a), (kb, b) in list(zip(nested, (simple * 9)[:len(nested)]))[:10]:
+                fs.append((ka + "&" + kb, T.binop("And", a, b)))
+                fs.append((kb + "&" + ka, T.binop("And", b, a)))
+                fs.append((ka + "|!" + kb, T.binop("Or", a, T.unop("Not", b))))
+            # three distinct relationships in one filter (and / or / not), strided
+            for (ka, a), (kb, b), (kc, c) in list(zip(lams[::5], (paths[1::3] * 9)[:len(lams)], (paths[::4] * 9)[:len(lams)]))[:12]:
+                fs.append((ka + "&" + kb + "|" + kc, T.binop("Or", T.binop("And", a, b), c)))
+                fs.append(("!" + ka + "&" + kb + "&" + kc, T.binop("And", T.binop("And", T.unop("Not", a), b), c)))
             if thorough:
                 fs += RL.compositions(nav[::2], plain[:3])
                 fs += RL.compositions(lams[::3], paths[::4])
